@@ -420,6 +420,8 @@ func init() {
 	intrinsics["math.Floor"] = f1(math.Floor, func(e *Exec, t *Term) *Term { return e.tt.FPRound("RTN", t) })
 	intrinsics["math.Ceil"] = f1(math.Ceil, func(e *Exec, t *Term) *Term { return e.tt.FPRound("RTP", t) })
 	intrinsics["math.Trunc"] = f1(math.Trunc, func(e *Exec, t *Term) *Term { return e.tt.FPRound("RTZ", t) })
+	intrinsics["math.Round"] = f1(math.Round, func(e *Exec, t *Term) *Term { return e.tt.FPRound("RNA", t) })
+	intrinsics["math.RoundToEven"] = f1(math.RoundToEven, func(e *Exec, t *Term) *Term { return e.tt.FPRound("RNE", t) })
 	intrinsics["math.Abs"] = f1(math.Abs, func(e *Exec, t *Term) *Term { return e.tt.FPAbs(t) })
 	intrinsics["math.Sqrt"] = f1(math.Sqrt, nil)
 	intrinsics["math.IsNaN"] = func(e *Exec, _ *frame, args []Value) Value {
